@@ -253,6 +253,7 @@ def remove_bordering(labeled, rsize=1, out=None, output=None):
     if out is None:
         out = im.copy()
     elif out is not im:
+        out = _get_output(im, out, 'labeled.remove_bordering')
         out[:] = im
     for val in invalid:
         out *= (im != val)
